@@ -96,6 +96,11 @@ def run_case(ctx, mr, case):
             fm_o, fm_s = info['filemeta']
             val = rng.choice([0, 0x18, 0x20, off - dm_o if dm_o <= off < dm_o + dm_s else off - fm_o, dm_s, fm_s, dm_s - 0x18, 0xFFFFFFFF, 0x7FFFFFFF,
                               rng.randrange(0, max(dm_s, fm_s, 1)), 1, 3])
+            if rng.random() < 0.25:
+                wide = [f for f in info['fields'] if f[2].endswith('.data_offset') or f[2].endswith('.data_size')]
+                if wide:
+                    off, width, desc = rng.choice(wide)
+                    val = rng.choice([1 << 32, (1 << 32) + 5, (1 << 63) + 1, (1 << 64) - 1, rng.getrandbits(64), rng.getrandbits(40)])
             b = bytearray(lv3)
             b[off:off + width] = (val % (1 << (8 * width))).to_bytes(width, 'little')
             lv3 = bytes(b)
@@ -136,6 +141,8 @@ def run_case(ctx, mr, case):
             ctx.diff('corr', 'romfs-walk-model', dict(case, mutated=mutated), str(model)[:200], str(impl)[:200], 'RomFS walk: trees differ')
     if mutated:
         return
+    if not case['ivfc'] and rng.random() < 0.3:
+        far_file_case(ctx, case, rng, lv3, info, flat)
     # ---- oracle: the packed tree, through the public interface
     bio.seek(case['start'])
     try:
@@ -216,6 +223,75 @@ def run_case(ctx, mr, case):
             ctx.diff('oracle', 'romfs-ivfc-offset', case, 'roundup(0x60+mhs, 1<<bs)', r.lv3_offset, 'level-3 offset of the IVFC-wrapped image')
     finally:
         r.close()
+
+
+class FarFile(io.RawIOBase):
+    """a read-only file made of a few byte regions far apart (zeros in between): a RomFS larger than 4 GiB without the memory"""
+
+    def __init__(self, regions, size):
+        super().__init__()
+        self.regions, self.size, self.pos = regions, size, 0
+
+    def readable(self):
+        return True
+
+    def seekable(self):
+        return True
+
+    def tell(self):
+        return self.pos
+
+    def seek(self, off, whence=0):
+        self.pos = max(0, off if whence == 0 else self.pos + off if whence == 1 else self.size + off)
+        return self.pos
+
+    def read(self, n=-1):
+        if n is None or n < 0:
+            n = max(0, self.size - self.pos)
+        n = max(0, min(n, self.size - self.pos))
+        if n > (1 << 24):
+            raise MemoryError('FarFile: read of %d bytes' % n)
+        out = bytearray(n)
+        for start, data in self.regions:
+            lo, hi = max(start, self.pos), min(start + len(data), self.pos + n)
+            if lo < hi:
+                out[lo - self.pos:hi - self.pos] = data[lo - start:hi - start]
+        self.pos += n
+        return bytes(out)
+
+
+def far_file_case(ctx, case, rng, lv3, info, flat):
+    """the data offset of a file entry is a 64-bit field: move one file's data beyond 4 GiB (its old place is overwritten)"""
+    from pyctr.type.romfs import RomFSReader
+    files = [(p, v) for p, (k, v) in flat.items() if k == 'file' and len(v) > 0]
+    if not files:
+        return
+    p, val = rng.choice(files)
+    foff = next(o for (o, w, d) in info['fields'] if d == f'file[{p}].data_offset')
+    old = int.from_bytes(lv3[foff:foff + 8], 'little')
+    new = rng.choice([1, 2, 0x10, 0xFFFF]) * (1 << 32) + rng.choice([old, 0, 0x10, old + 0x30])
+    b = bytearray(lv3)
+    b[foff:foff + 8] = new.to_bytes(8, 'little')
+    d0 = info['data_offset']
+    b[d0 + old:d0 + old + len(val)] = bytes(x ^ 0xA5 for x in val)
+    start = case['start']
+    far = FarFile([(0, b'\xC3' * start + bytes(b)), (start + d0 + new, val)], start + d0 + new + len(val))
+    far.seek(start)
+    ctx.stat('far_files')
+    try:
+        r = RomFSReader(far, case_insensitive=False, closefd=False)
+        try:
+            got = r.openbin(p).read()
+            size = r.getinfo(p, namespaces=['details']).size
+        finally:
+            r.close()
+    except Exception as ex:
+        ctx.diff('oracle', 'romfs-far-file-raises', dict(case, path=p, data_offset=new), 'file bytes', pyenv.errname(ex) + ': ' + str(ex)[:60],
+                 'a file whose data lies beyond 4 GiB could not be read')
+        return
+    if got != val or size != len(val):
+        ctx.diff('oracle', 'romfs-far-file', dict(case, path=p, data_offset=new), val.hex()[:40], got.hex()[:40],
+                 f'file {p!r} with data offset {new:#x} does not read back its bytes')
 
 
 def exhaustive_small():
